@@ -38,9 +38,105 @@ where
     }
 }
 
+fn hash32(v: &Value) -> [u8; 32] {
+    let b = hex::decode(v.as_str().unwrap()).unwrap();
+    let mut out = [0u8; 32];
+    out.copy_from_slice(&b);
+    out
+}
+
+fn leaves_of(case: &Value, key: &str) -> Vec<[u8; 32]> {
+    case.get(key)
+        .and_then(|v| v.as_array())
+        .map(|a| a.iter().map(hash32).collect())
+        .unwrap_or_default()
+}
+
+fn tree_of(leaves: &[[u8; 32]]) -> sos_core::commit::CommitTree {
+    let mut t = sos_core::commit::CommitTree::new();
+    let mut l = leaves.to_vec();
+    t.append(&mut l);
+    t.commit();
+    t
+}
+
+fn comparison_json(c: &Comparison) -> Value {
+    match c {
+        Comparison::Equal => json!({"kind":"Equal"}),
+        Comparison::Contains(ix) => json!({"kind":"Contains","indices":ix}),
+        Comparison::Unknown => json!({"kind":"Unknown"}),
+    }
+}
+
+/// rs_merkle behaviour used to validate the ideal-hash model: a script of
+/// append/commit/rollback steps, then root, leaves, single-index proofs and
+/// verification of each proof against every claimed total.
+fn merkle_script(case: &Value) -> Value {
+    use rs_merkle::{algorithms::Sha256, MerkleProof, MerkleTree};
+    let mut t = MerkleTree::<Sha256>::new();
+    for step in case.get("steps").and_then(|v| v.as_array()).unwrap() {
+        if let Some(a) = step.get("append").and_then(|v| v.as_array()) {
+            let mut l: Vec<[u8; 32]> = a.iter().map(hash32).collect();
+            t.append(&mut l);
+        } else if step.get("commit").is_some() {
+            t.commit();
+        } else if step.get("rollback").is_some() {
+            t.rollback();
+        }
+    }
+    let leaves = t.leaves().unwrap_or_default();
+    let n = leaves.len();
+    let mut proofs = vec![];
+    let mut verify = vec![];
+    for i in 0..n {
+        let p = t.proof(&[i]);
+        let bytes = p.to_bytes();
+        proofs.push(hex::encode(&bytes));
+        let p2 = MerkleProof::<Sha256>::from_bytes(&bytes).unwrap();
+        let mut row = vec![];
+        if let Some(root) = t.root() {
+            for total in 1..=(n + 2) {
+                row.push(p2.verify(root, &[i], &[leaves[i]], total));
+            }
+        }
+        verify.push(row);
+    }
+    json!({
+        "outcome":"ok",
+        "root": t.root().map(hex::encode),
+        "len": t.leaves_len(),
+        "leaves": leaves.iter().map(hex::encode).collect::<Vec<_>>(),
+        "proofs": proofs,
+        "verify": verify,
+    })
+}
+
 pub async fn run(case: &Value) -> Value {
     let op = case.get("op").and_then(|v| v.as_str()).unwrap_or("");
     match op {
+        "merkle_script" => merkle_script(case),
+        "compare" => {
+            // compare(A, head(B)) and per-index verify_leaves of B's proofs against A's leaves
+            let a = leaves_of(case, "a");
+            let b = leaves_of(case, "b");
+            let ta = tree_of(&a);
+            let tb = tree_of(&b);
+            let head = match tb.head() {
+                Ok(h) => h,
+                Err(e) => return json!({"outcome":"err","detail":e.to_string()}),
+            };
+            let cmp = match ta.compare(&head) {
+                Ok(c) => comparison_json(&c),
+                Err(e) => json!({"kind":"Err","detail":e.to_string()}),
+            };
+            let mut vl = vec![];
+            for i in 0..b.len() {
+                let p = tb.proof(&[i]).unwrap();
+                let (okv, matched) = p.verify_leaves(&a);
+                vl.push(json!({"index":i,"verified":okv,"matched":matched.len()}));
+            }
+            json!({"outcome":"ok","compare":cmp,"verify_leaves":vl})
+        }
         "decode" => {
             let ty = case.get("ty").and_then(|v| v.as_str()).unwrap_or("");
             let bytes = hexbytes(case, "bytes");
